@@ -98,6 +98,9 @@ class C18(Check):
                         i += 1
                         yield dict(seed=seed * 100003 + i, source=source, n=n + (int(rng.integers(0, 3)) * c if rep else 0), chunk=c,
                                    mode=mode, workers=1 if i % 3 else 4, group=str(rng.choice(["smaller", "equal", "larger", "one", "irregular"])))
+        # a random catalog larger than any power-of-two block size of the generators (2^20), in one chunk
+        i += 1
+        yield dict(seed=seed * 100003 + i, source="random", n=2**20 + 1000, chunk=10**7, mode="centres", workers=1, group="one")
         for j in range(160 if q else 6000):
             c = int(rng.choice([1, 2, 3, 7, 100]))
             n = int(rng.choice([1, 2, max(1, c - 1), c, c + 1, 2 * c - 1, 2 * c, 2 * c + 1, 97, 3 * c + 1]))
@@ -212,6 +215,10 @@ class C18(Check):
                     kw["patch_centers"] = cats.coords_obj(centres)
                 elif mode == "index":
                     names["patch_name"] = "patch"
+                    if case_bits(case, "index-and-num") % 3 == 0:
+                        # an index column together with a number of patches: the column defines the patches
+                        # (documented), no centres are generated, so still a single pass
+                        kw.update(patch_num=P, probe_size=n)
                 else:
                     kw.update(patch_num=P, probe_size=n)
                 # chunks handed on by the reader: observe the iterator protocol of the reader classes
@@ -235,6 +242,10 @@ class C18(Check):
                         def __call__(self_, probe_size):
                             log.add(op="draw", size=int(probe_size))
                             return super().__call__(probe_size)
+
+                        def _draw_coords(self_, probe_size):
+                            log.add(op="draw_coords", size=int(probe_size))
+                            return super()._draw_coords(probe_size)
 
                     g = LoggingRandoms(0.0, 30.0, -10.0, 10.0, weights=cols["w"], seed=int(case["seed"] % 97))
                     kw2 = dict(kw)
@@ -361,6 +372,9 @@ class C18(Check):
                 bad("request:probe-larger-than-input", dict(draws=draws[:3], n=n))
             if any(d > c_eff for d in write_draws):
                 bad("request:longer-than-chunk", dict(what="random", request=max(write_draws), chunk=c_eff))
+            inner = [e["size"] for e in events if e["op"] == "draw_coords"]
+            if inner and sum(inner) != sum(draws):
+                bad("request:points-drawn-differ-from-points-requested", dict(drawn=sum(inner), requested=sum(draws), n=n))
             if sum(write_draws) != n and not (partial and sum(write_draws) < n):
                 bad("request:row-requested-wrong-total", dict(total=sum(write_draws), n=n, chunk=c_eff))
             nreq_pass = len(write_draws)
